@@ -180,6 +180,11 @@ func (r *v1run) getOp(obj int64, w int64, cost, costDone uint32, batchable bool)
 }
 
 func (r *v1run) doStep(st Step) {
+	defer func() {
+		if e := recover(); e != nil {
+			r.log.Logf("O", "apipanic %s", st.Kind)
+		}
+	}()
 	switch st.Kind {
 	case "start":
 		r.log.Logf("D", "act start")
@@ -194,6 +199,11 @@ func (r *v1run) doStep(st Step) {
 	case "stop":
 		r.log.Logf("D", "act stop")
 		go func() {
+			defer func() {
+				if e := recover(); e != nil {
+					r.log.Logf("O", "apipanic stop")
+				}
+			}()
 			r.b.Stop()
 			r.log.Logf("O", "stopret")
 		}()
@@ -295,7 +305,10 @@ func RunBatcherV1(t *testing.T, sc *Scenario, out io.Writer) {
 		// wind-down: release parked callers, cancel, let every timer run out
 		lg.Raw("winddown")
 		r.calls.Range(func(k, v interface{}) bool { close(v.(chan struct{})); return true })
-		go r.b.Stop()
+		go func() {
+			defer func() { recover() }()
+			r.b.Stop()
+		}()
 		time.Sleep(time.Duration(sc.Tail))
 		synctest.Wait()
 		lg.Logf("D", "end %d", r.pending.Load())
